@@ -110,7 +110,7 @@ let show_res = function
 
 (* ---- the implementation's line ---- *)
 type impl = { i_built : tx_report option; i_unsafe : tx_report option; i_pol : fee_request; i_recs : oprec list;
-              i_tail : string; i_fin_k : n option }
+              i_tail : string; i_fin_k : n option; i_full : z option }
 
 let site_code s = n_of_int (Char.code s.[0])
 
@@ -136,7 +136,7 @@ let parse_impl (l : string list) : impl option =
     let ni = cnt t in
     let _ = rep ni (fun () -> next t) in
     expect t "FIN";
-    let _fs = next t in let _mf = next t in
+    let fs = next t in let _mf = next t in
     let tail_start = t.pos in
     expect t "TX";
     let built = report t in
@@ -161,7 +161,8 @@ let parse_impl (l : string list) : impl option =
         { or_tape = tape; or_sel = sel; or_k = kk }) in
     let tail = String.concat " " (Array.to_list (Array.sub t.a tail_start (t.pos - tail_start))) in
     let fin_k = (match List.rev recs with r :: _ -> r.or_k | [] -> None) in
-    Some { i_built = built; i_unsafe = uns; i_pol = pol; i_recs = recs; i_tail = tail; i_fin_k = fin_k }
+    Some { i_built = built; i_unsafe = uns; i_pol = pol; i_recs = recs; i_tail = tail; i_fin_k = fin_k;
+           i_full = (if fs = "~" then None else Some (z_of_string fs)) }
   | _ -> None
 
 let show_verdict = function
@@ -199,5 +200,5 @@ let () = run_driver (fun toks impl_toks ->
     let (uns, slack, bind) = (match r.r_bal with
         | Some (s, bd) -> (im.i_unsafe, s, bd)
         | None -> (None, true, false)) in
-    let v = judge_tx sc.za sc.zb sc.pr im.i_pol im.i_built uns slack bind in
+    let v = judge_tx sc.za sc.zb sc.pr im.i_pol im.i_built uns slack bind im.i_full in
     (Buffer.contents b, show_verdict v))
